@@ -10,6 +10,7 @@ import (
 	"github.com/talostrading/sonic/codec/websocket"
 	"pgregory.net/rapid"
 	"verif/internal/evid"
+	"verif/internal/memstream"
 	"verif/internal/rfc6455"
 	"verif/internal/vt"
 )
@@ -24,7 +25,7 @@ var marker = []byte{0xde, 0xad, 0xbe, 0xef, 0x15, 0x15}
 
 func TestC15_ViolationsReported(t *testing.T) {
 	rec := evid.For("C15")
-	rec.SetRule("rapid: a conforming session from the C06 generator (1..4 messages, fragmentation, interleaved ping/pong) with exactly one mutation at a generated frame position: RSV1/2/3 set, reserved opcode 3-7/11-15, mask bit + key, control frame with FIN=0, control frame with 126..200 bytes, continuation with nothing to continue, text/binary inside a fragmented message, frame above max, message above max; generated segmentation (cuts biased into headers); all four read APIs, async completions inline or parked; oracle: deliveries before the mutated frame equal the reference, the read reaching it returns an error, its marked payload is never delivered without an error, no panic; framing violations additionally: exactly one Close(1002) on the wire after Flush, State()==ClosedByUs, Write/AsyncWrite/WriteFrame refused; non-trivial = mutation inside a fragmented message or after >=2 delivered messages, with a segment boundary inside the mutated frame; distinct = hash of wire+cuts+mutation")
+	rec.SetRule("rapid: a conforming session from the C06 generator (1..4 messages, fragmentation, interleaved ping/pong) with exactly one mutation at a generated frame position: RSV1/2/3 set, reserved opcode 3-7/11-15, mask bit + key, control frame with FIN=0, control frame with 126..200 bytes, continuation with nothing to continue, text/binary inside a fragmented message, frame above max, message above max; generated segmentation (cuts biased into headers); all four read APIs, async completions inline or parked; oracle: deliveries before the mutated frame equal the reference, the read reaching it returns an error, its marked payload is never delivered without an error, no panic; framing violations additionally: exactly one Close(1002) on the wire after Flush, State()==ClosedByUs, Write/AsyncWrite/WriteFrame refused; non-trivial = mutation inside a fragmented message or after >=2 delivered messages, with a segment boundary inside the mutated frame; TestC15_ViolationAfterLocalClose: the same session generator with a framing violation (marked payload) at a message boundary and a local Close/AsyncClose issued after a generated number of deliveries (0 = before the first read): the conforming prefix is still delivered, the read reaching the violation reports an error on every API, the marked payload is never delivered; non-trivial there = violation not at the very start; distinct = hash of wire+cuts+mutation")
 	vt.Check(t, 1500, func(t *rapid.T) {
 		max := 1000
 		sess := genSession(t, max, 4)
@@ -310,5 +311,139 @@ func TestC15_ViolationsReported(t *testing.T) {
 		}
 		rec.Case(fmt.Sprintf("%x|%v|%s@%d", wire, cuts, mut.kind, pos), nt, cls,
 			map[string]any{"mutation": mut.kind, "position": pos, "frames": len(frames), "cuts": cuts, "wire_len": len(wire)})
+	})
+}
+
+// TestC15_ViolationAfterLocalClose places the violating frame at the positions of a session that follow a locally
+// started Close: the client keeps reading until the peer's Close arrives, and a frame that breaks the framing rules in
+// that stretch is still reported by every read API and never delivered.
+func TestC15_ViolationAfterLocalClose(t *testing.T) {
+	rec := evid.For("C15")
+	vt.Check(t, 600, func(t *rapid.T) {
+		max := 1000
+		sess := genSession(t, max, 3)
+		frames := append([]rfc6455.Frame(nil), sess.Frames...)
+		// the violating frame goes at a message boundary (or at the end), so that the conforming prefix is deliverable whole
+		var bounds []int
+		inMsg := false
+		for i, f := range frames {
+			if !inMsg {
+				bounds = append(bounds, i)
+			}
+			if !rfc6455.IsControl(f.Opcode) {
+				inMsg = !f.Fin
+			}
+		}
+		bounds = append(bounds, len(frames))
+		pos := bounds[rapid.IntRange(0, len(bounds)-1).Draw(t, "pos")]
+		kind := rapid.SampledFrom([]string{"rsv1", "rsv2", "rsv3", "reserved-opcode", "masked", "control-fin0", "control-too-long"}).Draw(t, "mutation")
+		payload := append(append([]byte{}, marker...), bytes.Repeat([]byte{0x15}, rapid.IntRange(0, 40).Draw(t, "plen"))...)
+		bad := rfc6455.Frame{Fin: true, Opcode: rfc6455.OpText, Payload: payload, LenBytes: -1}
+		switch kind {
+		case "rsv1":
+			bad.Rsv1 = true
+		case "rsv2":
+			bad.Rsv2 = true
+		case "rsv3":
+			bad.Rsv3 = true
+		case "reserved-opcode":
+			bad.Opcode = byte(rapid.SampledFrom([]int{3, 4, 5, 6, 7, 11, 12, 13, 14, 15}).Draw(t, "rop"))
+		case "masked":
+			bad.Masked, bad.Key = true, [4]byte{9, 8, 7, 6}
+		case "control-fin0":
+			bad.Opcode, bad.Fin = rfc6455.OpPing, false
+		case "control-too-long":
+			bad.Opcode = rfc6455.OpPing
+			bad.Payload = append(append([]byte{}, marker...), bytes.Repeat([]byte{0x15}, rapid.IntRange(120, 200).Draw(t, "clen"))...)
+		}
+		frames = append(append(append([]rfc6455.Frame{}, frames[:pos]...), bad), rfc6455.Frame{Fin: true, Opcode: rfc6455.OpClose, Payload: rfc6455.ClosePayload(1000, ""), LenBytes: -1})
+		var wire []byte
+		var starts []int
+		for _, f := range frames {
+			starts = append(starts, len(wire))
+			wire = append(wire, rfc6455.Encode(f)...)
+		}
+		chunks, cuts, _ := segment(t, wire, starts, "seg.")
+		pattern := rapid.SliceOfN(rapid.Bool(), 1, 6).Draw(t, "inline")
+		asyncClose := rapid.Bool().Draw(t, "asyncClose")
+		// reference deliveries of the conforming prefix
+		var wantFrames, wantMsgs []wsEvent
+		{
+			var acc []byte
+			var op byte
+			started := false
+			for i := 0; i < pos; i++ {
+				f := frames[i]
+				wantFrames = append(wantFrames, wsEvent{Kind: "frame", Op: f.Opcode, Fin: f.Fin, Payload: f.Payload})
+				if rfc6455.IsControl(f.Opcode) {
+					wantMsgs = append(wantMsgs, wsEvent{Kind: "ctl", Op: f.Opcode, Fin: true, Payload: f.Payload})
+					continue
+				}
+				if !started {
+					op, started, acc = f.Opcode, true, nil
+				}
+				acc = append(acc, f.Payload...)
+				if f.Fin {
+					wantMsgs = append(wantMsgs, wsEvent{Kind: "msg", Op: op, Fin: true, Payload: acc})
+					started = false
+				}
+			}
+		}
+		for _, api := range readAPIs {
+			want := wantMsgs
+			if api == "NextFrame" || api == "AsyncNextFrame" {
+				want = wantFrames
+			}
+			closeAfter := rapid.IntRange(0, len(want)).Draw(t, "closeAfter."+api)
+			closedAt := -1
+			k := 0
+			inline := func(bool) bool { k++; return pattern[k%len(pattern)] }
+			hook := func(s *websocket.Stream, msRef *memstream.Stream, delivered int) {
+				if closedAt >= 0 || delivered < closeAfter {
+					return
+				}
+				closedAt = delivered
+				if asyncClose {
+					done := 0
+					s.AsyncClose(websocket.CloseNormal, "done", func(error) { done++ })
+					for d := 0; done == 0 && d < 1000 && msRef.Deliver(); d++ {
+					}
+					if done != 1 {
+						t.Fatalf("AsyncClose callback ran %d times", done)
+					}
+				} else {
+					_ = s.Close(websocket.CloseNormal, "done")
+				}
+			}
+			got, ferr, problem, s, _ := readSessionHook(api, max, 4*max, chunks, inline, hook)
+			desc := fmt.Sprintf("%s mutation=%s@%d closeAfter=%d(asyncClose=%v) cuts=%v", api, kind, pos, closeAfter, asyncClose, cuts)
+			if problem != "" {
+				t.Fatalf("%s: %s", desc, problem)
+			}
+			for _, e := range got {
+				if e.Kind != "ctl" && bytes.Contains(e.Payload, marker) {
+					t.Fatalf("%s: bytes of the violating frame were delivered as data (%s) while the client was closing", desc, e)
+				}
+			}
+			if len(got) > len(want) {
+				t.Fatalf("%s: delivered %s although the next thing on the wire violates the protocol (the client had started closing after delivery #%d); err=%v", desc, got[len(want)], closedAt, ferr)
+			}
+			if i, ok := eventsEqual(got, want[:len(got)]); !ok {
+				t.Fatalf("%s: delivery #%d differs: got %s want %s", desc, i, got[i], want[i])
+			}
+			if ferr == nil {
+				t.Fatalf("%s: no error reported", desc)
+			}
+			if len(got) != len(want) {
+				t.Fatalf("%s: only %d of the %d conforming deliveries before the violation arrived (reads continue after a local Close until the peer's Close); err=%v", desc, len(got), len(want), ferr)
+			}
+			if s.State() == websocket.StateActive {
+				t.Fatalf("%s: State() is active after a local Close and a violation", desc)
+			}
+			if err := s.Write([]byte("late"), websocket.TypeText); err == nil {
+				t.Fatalf("%s: Write accepted", desc)
+			}
+		}
+		rec.Case(fmt.Sprintf("afterclose|%x|%v|%s@%d", wire, cuts, kind, pos), pos > 0, []string{"violation-after-local-close", "mutation:" + kind}, map[string]any{"mutation": kind, "position": pos, "frames": len(frames)})
 	})
 }
